@@ -150,6 +150,14 @@ def space_M(tier):
         d = copy.deepcopy(BASE)
         d["logsource"] = ls
         yield d, "logsource"
+    # every calendar day of a leap year, in the three accepted spellings, as date and as modified
+    day = datetime.date(2024, 1, 1)
+    while day.year == 2024:
+        for n, v in enumerate((day.isoformat(), f"{day.year}/{day.month}/{day.day}", day)):
+            d = copy.deepcopy(BASE)
+            d["date" if (day.toordinal() + n) % 2 else "modified"] = v
+            yield d, "meta/calendar"
+        day += datetime.timedelta(days=1)
 
 
 def strings(maxlen):
